@@ -42,7 +42,7 @@ func checkC22(r *Run) {
 		}
 		return []octosql.Value{intv(1 + t.Draw(dom)), intv(t.Draw(2))}
 	}
-	script := GenChangelog(t.Block(8*maxSteps+10), ChangelogCfg{MaxSteps: maxSteps, Watermarked: watermarked, Retractions: true, Dups: true,
+	script := GenChangelog(t.Block(stepBlock*maxSteps+10), ChangelogCfg{MaxSteps: maxSteps, Watermarked: watermarked, Retractions: true, Dups: true,
 		Row: row, FinalWM: true, ZeroTimeMix: true})
 	attrs := map[string]string{"node": "InternallyConsistentOutputStreamWrapper"}
 	r.Log("watermarked=%v", watermarked)
